@@ -300,6 +300,8 @@ def run(ctx: Any) -> None:
     )
 
     model_cases: list[tuple[str, str]] = []
+    by_name: dict[str, Any] = {}
+    table_defs: list[str] = []
     case_info: list[dict[str, Any]] = []
     seen: set[str] = set()
 
@@ -314,42 +316,45 @@ def run(ctx: Any) -> None:
             ctx.count("unbuildable_requests")
             return
         name = decl["name"]
-        params = decl["params"]
-        declared = srv._methods[name].params_schema
-        # ---- the statement's predicate, from the descriptor and the declaration alone -------------------------
         cols = d["cols"]
-        key_ok = d["method_key"] == ("name", name)
-        framed = key_ok and d["version"] == "ok" and (not cols or d["rows"] == 1)
-        schema_ok = len(cols) == len(declared) and all(
-            c[0] == f.name and c[1] == f.type and c[2] == f.nullable for c, f in zip(cols, declared)
-        )
-        nonnull_ok = schema_ok and all(p[2] or c[3] is not None for p, c in zip(params, cols))
-        stmt_conf = framed and schema_ok and nonnull_ok
         pyvals = []
         for cname, t, _nl, v in cols:
             pyvals.append(None if v is None else pa.array([v], type=t)[0].as_py())
-        decodable = True
-        enum_only_failure = True
-        if stmt_conf:
-            for p, v in zip(params, pyvals):
-                if v is None:
-                    continue
-                if p[1] == "enum" and v not in S.Color.__members__:
-                    decodable = False
-                if p[1] == "dc":
-                    try:
-                        S.DC.deserialize_from_bytes(v)
-                    except Exception:  # noqa: BLE001 - any failure means "does not decode"
-                        decodable = False
-                        enum_only_failure = False
         labels_s = "+".join(labels) or "valid"
         repl = {"service": sigs, "method": name, "perturbation": labels_s, "request": _show(d), "behaviour": beh}
 
-        def idx(n: str) -> int:
-            names = [f.name for f in declared]
-            return names.index(n) if n in names else 99
+        def judge(target: str | None) -> dict[str, Any]:
+            """The statement's predicate for the method the request addresses, from descriptor + declaration alone."""
+            tdecl = by_name.get(target) if target is not None else None
+            if tdecl is None:
+                return {"known": False, "conf": False, "decodable": True, "enum_only": True, "params": [], "declared": []}
+            params = tdecl["params"]
+            declared = srv._methods[target].params_schema
+            framed = d["method_key"] == ("name", target) and d["version"] == "ok" and (not cols or d["rows"] == 1)
+            schema_ok = len(cols) == len(declared) and all(c[0] == f.name and c[1] == f.type and c[2] == f.nullable for c, f in zip(cols, declared))
+            nonnull_ok = schema_ok and all(p[2] or c[3] is not None for p, c in zip(params, cols))
+            conf = framed and schema_ok and nonnull_ok
+            decodable = True
+            enum_only = True
+            if conf:
+                for p, v in zip(params, pyvals):
+                    if v is None:
+                        continue
+                    if p[1] == "enum" and v not in S.Color.__members__:
+                        decodable = False
+                    if p[1] == "dc":
+                        try:
+                            S.DC.deserialize_from_bytes(v)
+                        except Exception:  # noqa: BLE001 - any failure means "does not decode"
+                            decodable = False
+                            enum_only = False
+            return {"known": True, "conf": conf, "decodable": decodable, "enum_only": enum_only, "params": params, "declared": declared, "stream": tdecl["stream"]}
 
-        def classify(invoked: bool, err: Any, handshake: bool = False) -> tuple[list[int], str]:
+        def classify(invoked: bool, err: Any, declared: Any, handshake: bool = False) -> tuple[list[int], str]:
+            def idx(n: str) -> int:
+                names = [f.name for f in declared]
+                return names.index(n) if n in names else 99
+
             if handshake:
                 return [18], ""
             if invoked:
@@ -382,7 +387,6 @@ def run(ctx: Any) -> None:
                 err = None
                 for s in st:
                     err = err or error_of(s)
-                handshake = False
             else:
                 url = "/" + d["url"] + ("/init" if d["endpoint"] == "init" else "")
                 r = client.simulate_post(url, body=data, headers=ARROW_CT)
@@ -395,24 +399,26 @@ def run(ctx: Any) -> None:
                         err = err or error_of(s)
                 except Exception as e:  # noqa: BLE001
                     err = ("unparseable", type(e).__name__, None)
-                handshake = False
-            invoked = [x for x in S.LOG if x[0] != "__state__"]
+            invoked = list(S.LOG)
+            target = (d["method_key"][1] if d["method_key"][0] == "name" else None) if path == "socket" else d["url"]
+            j = judge(target)
+            params, declared, decodable, enum_only_failure = j["params"], j["declared"], j["decodable"], j["enum_only"]
+            handshake = path == "socket" and target == "__transport_options__" and err is None and not invoked and escaped is None
             ctx.count("impl_runs")
             ctx.tally("path", path)
             ctx.case([sigs["id"], name, _show(d), beh, path], nontrivial=bool(labels) or beh != "ok")
             rp = {**repl, "path": path, "status": status, "marker": marker, "error": list(err) if err else None, "invoked": [list(map(repr, x)) for x in invoked], "escaped": escaped}
             # ---- property oracle on the implementation -------------------------------------------------------
-            url_ok = path == "socket" or (d["url"] == name and d["endpoint"] == ("init" if decl["stream"] else "unary"))
-            url_known = path == "socket" or d["url"] in srv._methods
-            conf = stmt_conf and url_ok
+            url_known = path == "socket" or j["known"]
+            conf = j["conf"] and (path == "socket" or d["endpoint"] == ("init" if j["stream"] else "unary"))
             if escaped is not None:
                 ctx.violation("exception-escapes-dispatch", f"{path}: {escaped} escaped instead of an error reply", rp)
             if len(invoked) > 1:
                 ctx.violation("method-invoked-twice", f"{path}: one request ran the method {len(invoked)} times", rp)
             if invoked and not conf:
                 ctx.violation("method-invoked-on-nonconforming-request", f"{path}: the method ran although the request does not conform ({labels_s})", rp)
-            if invoked and invoked[0][0] != (name if path == "socket" else d["url"]):
-                ctx.violation("wrong-method-invoked", f"{path}: method {invoked[0][0]} ran for a request naming {name}", rp)
+            if invoked and invoked[0][0] != target:
+                ctx.violation("wrong-method-invoked", f"{path}: method {invoked[0][0]} ran for a request addressed to {target}", rp)
             if invoked and conf:
                 got = invoked[0][1]
                 if list(got) != [p[0] for p in params]:
@@ -421,7 +427,7 @@ def run(ctx: Any) -> None:
                     for p, v in zip(params, pyvals):
                         want = v
                         if v is not None:
-                            want = _deserialize_value(v, srv._methods[name].param_types[p[0]])
+                            want = _deserialize_value(v, srv._methods[target].param_types[p[0]])
                         if got[p[0]] != want or type(got[p[0]]) is not type(want):
                             ctx.violation("method-invoked-with-altered-argument", f"{path}: parameter {p[0]} received {got[p[0]]!r}, request carried {want!r}", rp)
             if conf and decodable and not invoked:
@@ -430,7 +436,7 @@ def run(ctx: Any) -> None:
                 ctx.violation("method-invoked-with-unconvertible-value", f"{path}: the method ran with a value that has no declared conversion", rp)
             if not invoked and not (conf and decodable):
                 if path == "socket":
-                    if err is None and d["method_key"] != ("name", "__transport_options__"):
+                    if err is None and not handshake:
                         ctx.violation("socket-rejection-without-error-stream", "socket: request refused but no error batch was written", rp)
                 else:
                     want_status = 404 if not url_known else 400
@@ -455,7 +461,7 @@ def run(ctx: Any) -> None:
             if path == "http" and status == 400 and invoked:
                 ctx.violation("http-400-after-invocation", "http: 400 although the method ran", rp)
             # ---- model case ------------------------------------------------------------------------------------
-            rc, rname = classify(bool(invoked), err, handshake)
+            rc, rname = classify(bool(invoked), err, declared, handshake)
             if escaped is not None:
                 rc = [97]
             errcode = 0 if err is None else code_of(err[0]) + 1
@@ -508,7 +514,10 @@ def run(ctx: Any) -> None:
             infos.append(f"{{| mi_name := {cstr(m)}; mi_types := {types}; mi_defaults := {defaults}; mi_schema := {schema}; mi_stream := {cbool(st)} |}}")
             if sorted(info.param_defaults) != sorted(p[0] for p in ps if p[3]):
                 ctx.obligation("harness:defaults", "harness", False, f"{m}: {sorted(info.param_defaults)}")
-        table_term = clist(infos)
+        table_defs.append(f"Definition tbl{si} : list minfo := {clist(infos)}.")
+        table_term = f"tbl{si}"
+        by_name.clear()
+        by_name.update({m: {"stream": st, "params": ps} for m, st, ps in methods})
         for m, st, ps in methods:
             decl = {"name": m, "stream": st, "params": ps}
             declared = srv._methods[m].params_schema
@@ -537,15 +546,17 @@ def run(ctx: Any) -> None:
             if thorough and si == 0:
                 pairs = [(a, b) for a in range(len(perts)) for b in range(len(perts)) if a != b]
             else:
-                k = 400 if thorough else 25
+                k = 400 if thorough else 15
                 pairs = [(rng.randrange(len(perts)), rng.randrange(len(perts))) for _ in range(k)]
             # targeted: every value-conversion failure combined with every shape / nullness perturbation of another column
-            conv_labels = [i for i, (lb, _) in enumerate(perts) if lb.startswith(("dc-", "enum-unknown", "retype")) and any(S.KINDS[p[1]][2] != "KPlain" for p in ps)]
-            shape_labels = [i for i, (lb, _) in enumerate(perts) if lb.startswith(("nullflip", "null[", "retype", "rename", "add@0:fresh"))]
+            conv_labels = [i for i, (lb, _) in enumerate(perts) if lb.startswith(("dc-", "enum-unknown"))]
+            shape_labels = [i for i, (lb, _) in enumerate(perts) if lb.startswith(("nullflip", "null[", "retype", "rename", "add@0:fresh", "drop", "swap"))]
             targeted = [(a, b) for a in conv_labels for b in shape_labels if a != b]
             if not thorough:
-                rng.shuffle(targeted)
-                targeted = targeted[:40]
+                must = [(a, b) for a, b in targeted if perts[a][0].startswith("dc-truncated-body")]
+                rest = [x for x in targeted if x not in must]
+                rng.shuffle(rest)
+                targeted = must + rest[:30]
             for a, b in pairs + targeted:
                 d1 = perts[a][1](valid)
                 d2 = perts[b][1](d1) if d1 is not None else None
@@ -560,7 +571,7 @@ def run(ctx: Any) -> None:
     ctx.sample({"service": 0, "method": "m0", "perturbation": "valid", "behaviour": "raise TypeError", "expected": "HTTP 200 + X-VGI-RPC-Error, error class TypeError"})
 
     # ---- model side ----------------------------------------------------------------------------------------------
-    header = "From Coq Require Import List NArith Bool.\nFrom VGI Require Import M_Validate G_Validate Corr.\nImport ListNotations.\nOpen Scope N_scope."
+    header = "From Coq Require Import List NArith Bool.\nFrom VGI Require Import M_Validate G_Validate Corr.\nImport ListNotations.\nOpen Scope N_scope.\n" + "\n".join(table_defs)
     ok, bad, clog = ctx.coq_mismatches(
         header, "run_case", "pair_eqb bytes_eqb bytes_eqb", model_cases,
         "N * list N * list minfo * behaviour * request", "list N * list N", shard=250,
